@@ -64,8 +64,17 @@ def missing_objects(o, out):
     return out
 
 
+class ClaimsClass:
+    """not MISSING, yet `isinstance(x, Missing)` says True: __class__ is an ordinary attribute lookup"""
+
+    @property
+    def __class__(self):
+        return Missing
+
+
 LOOK = {"MISSING": lambda: MISSING, "None": lambda: None, "False": lambda: False, "zero": lambda: 0,
-        "empty_str": lambda: "", "empty_tuple": lambda: (), "always_equal": AlwaysEqual, "other_state": Holder}
+        "empty_str": lambda: "", "empty_tuple": lambda: (), "always_equal": AlwaysEqual, "other_state": Holder,
+        "claims_class": ClaimsClass}
 SENTINEL = object()
 BASE = dict(fresh=0, ok="ok", eq=(False, False), pred=("none", "none", "none"), attrs="none")
 
